@@ -185,11 +185,32 @@ pub fn run_crash_case(
         snap.hunk_files(new).len()
     );
 
+    // (7) the state an interruption leaves is a legal state of the format, not damage: unless a
+    //     band directory without a usable head or an empty BANDTAIL is lying around (reading
+    //     around those is legitimately reported), nothing that reads the archive afterwards has an
+    //     error to report - not the listing of the interrupted version, not the later backup.
+    let no_debris = snap.band_ids().iter().all(|b| snap.has_head(*b))
+        && !snap.files.iter().any(|(f, c)| f.ends_with("/BANDTAIL") && c.is_empty());
+    if no_debris && head_done && !tail_exists {
+        let (lo, _) = run::do_list(&dir, Sel::Band(new), "/", &[], run::NOHOOK);
+        if !lo.monitor_errors.is_empty() {
+            res.c03.push(Violation::new(
+                format!("C03:listing-interrupted-band-reports-errors:{site}"),
+                format!("{at}: listing b{new:04}: {}", lo.describe()),
+            ));
+        }
+    }
     // (5) a later backup of the same source completes and restores exactly
     let icpt2 = Icpt::new(&dir, Plan::none());
     let out2 = run::do_backup(&dir, &src_dir, &scn.opts, Some(&icpt2), Flavor::Current);
     let log2 = icpt2.take_log();
     let snap2 = Snap::load(&dir);
+    if no_debris && !out2.monitor_errors.is_empty() {
+        res.c03.push(Violation::new(
+            format!("C03:follow-up-backup-reports-errors:{site}"),
+            format!("{at}: follow-up backup: {}", out2.describe()),
+        ));
+    }
     match out2.ok_stats() {
         Some(stats) if stats.errors == 0 => {
             let newest = *snap2.band_ids().last().unwrap();
